@@ -188,8 +188,10 @@ def checkStep (kinds : List LKind) (r : Ref) (op : Op) (prev cur : Nat → Cnt) 
         | .recd => (cur i).e == r'.deliv i && (cur i).n == 0
         | .simpleRec => (cur i).n == r'.deliv i
         | .batchRec =>
-          if isFlush || (isSd && !isDone) then (cur i).n == r'.deliv i
-          else if isSd then (prev i).n ≤ (cur i).n && (cur i).n ≤ r'.deliv i
+          -- a live ForceFlush / Shutdown returns with everything exported; a raced one (done context) with some
+          -- of it; no other call exports anything (asynchronous arrivals after a raced call: Lag.lean)
+          if (isFlush || isSd) && !isDone then (cur i).n == r'.deliv i
+          else if isFlush || isSd then (prev i).n ≤ (cur i).n && (cur i).n ≤ r'.deliv i
           else (cur i).n == (prev i).n
         | _ => (cur i).n == 0)
     o := !(allBelow n fun i =>
